@@ -21,7 +21,7 @@ func isNamed(t types.Type, pkg, name string) bool {
 		}
 		return false
 	}
-	return n.Obj().Name() == name && n.Obj().Pkg() != nil && n.Obj().Pkg().Path() == pkg
+	return N(n.Obj()) == name && n.Obj().Pkg() != nil && n.Obj().Pkg().Path() == pkg
 }
 
 func isHTTPHeader(t types.Type) bool { return isNamed(t, "net/http", "Header") }
@@ -48,7 +48,7 @@ func fieldOwner(f *types.Var, p *Prog) string {
 		}
 		for i := 0; i < st.NumFields(); i++ {
 			if st.Field(i) == f {
-				return name
+				return N(tn)
 			}
 		}
 	}
